@@ -68,6 +68,10 @@ impl Story {
     ) -> Result<(), StoryError> {
         self.if_async_we_cant("call ChoosePathString right now")?;
 
+        // Refuse an unknown path before touching any state.
+        let target_path = Path::new_with_components_string(Some(path));
+        Story::pointer_at_path(&self.main_content_container, &target_path)?;
+
         if reset_call_stack {
             self.reset_callstack()?;
         } else {
